@@ -172,6 +172,9 @@ func RunVectorEstimators(c *core.Ctx) {
 		return
 	}
 	seq := estimateVector(e1, recs, gamma, tp.ThreadPool{})
+	if sequentialPanics(c, seq) {
+		return
+	}
 	e2, _ := mk()
 	var par outcome
 	res, abort, pv, site := simRun(c, cfg, func(p tp.ThreadPool) { par = estimateVector(e2, recs, gamma, p) })
@@ -259,6 +262,9 @@ func RunNumeric(c *core.Ctx, checkStationary bool) {
 	}
 	before := snapVecs([]ad.ConstVector{xv, gamma})
 	seq := run(tp.ThreadPool{})
+	if sequentialPanics(c, seq) {
+		return
+	}
 	var par outcome
 	res, abort, pv, site := simRun(c, cfg, func(p tp.ThreadPool) { par = run(p) })
 	if abort != nil {
@@ -381,6 +387,9 @@ func RunZeroProbabilityRecord(c *core.Ctx) {
 		return outcome{params: vecOf(d.GetParameters())}
 	}
 	seq := run(tp.ThreadPool{})
+	if sequentialPanics(c, seq) {
+		return
+	}
 	var par outcome
 	res, abort, pv, site := simRun(c, cfg, func(p tp.ThreadPool) { par = run(p) })
 	if abort != nil {
@@ -487,6 +496,9 @@ func RunComponentFailure(c *core.Ctx) {
 		return o
 	}
 	seq := run(tp.ThreadPool{})
+	if sequentialPanics(c, seq) {
+		return
+	}
 	var par outcome
 	res, abort, pv, site := simRun(c, cfg, func(p tp.ThreadPool) { par = run(p) })
 	if abort != nil {
